@@ -273,8 +273,11 @@ type emitted struct {
 
 func (g *c02) der(op, tag string, der []byte, spec Sx) Sx {
 	d := derOps[op]
-	in := SL{SB(der), d.oracle(der), spec}
-	g.c.Emit(op+":"+tag, in, infoObs(func() (file.Info, error) { return d.parse(der) }))
+	orc := d.oracle(der)
+	in := SL{SB(der), orc, spec}
+	impl := infoObs(func() (file.Info, error) { return d.parse(der) })
+	g.c.Emit(op+":"+tag, in, impl)
+	g.derFromBytes(op, tag, der, orc, spec, impl)
 	if _, ok := spec.(SL); ok && len(spec.(SL)) > 0 {
 		e := emitted{op: op, tag: tag, data: der, input: in}
 		if d.pem != "" {
@@ -1431,6 +1434,7 @@ func genC02(c *Ctx) {
 		per = 5
 	}
 	g.malformed(per)
+	g.derDecoderStream()
 }
 
 // c02Seeds contributes generated keys in their containers to C01's malformed stream.
